@@ -7,9 +7,10 @@
 // still alive and whether a concurrent well-behaved client on another connection was
 // served meanwhile.  Three daemons with small limits (max-msg-size 64, max-body-size 384,
 // max-rdy-count 10, max-channel-consumers 1):
-//   inproc  in-process (harness/nsqdlib)          grammar / truncated / magic / long lines / interactive
-//   sub     the nsqd BINARY of the repository      mutated fields and pure garbage (a crash is observable)
-//   tls     in-process, --tls-required=tcp-https   every command but IDENTIFY must be refused
+//
+//	inproc  in-process (harness/nsqdlib)          grammar / truncated / magic / long lines / interactive
+//	sub     the nsqd BINARY of the repository      mutated fields and pure garbage (a crash is observable)
+//	tls     in-process, --tls-required=tcp-https   every command but IDENTIFY must be refused
 package main
 
 import (
@@ -105,6 +106,7 @@ func (g *gen) eol() {
 		g.buf.WriteString("\n")
 	}
 }
+
 // valid: the command's parameters, names, sizes and option values are within what the
 // protocol and the daemon's limits allow (nothing about the connection state)
 func (g *gen) cmd(idx int, msgs int64, valid bool) {
@@ -1705,7 +1707,7 @@ func (rn *runner) run(name string, in Input) {
 	alltags = dedupe(alltags)
 	rn.o.Emit(lib.Case{Name: name, Coq: coq, Input: in, Tags: alltags,
 		Nontrivial: respN > 0 || enq > 0 || len(coqFrames) > 1,
-		Obs: map[string]interface{}{"frames": coqFrames, "enqueued": enq, "alive": alive, "bystander": bystOK, "stream_len": stream.Len(), "msgs_received": len(ids)}})
+		Obs:        map[string]interface{}{"frames": coqFrames, "enqueued": enq, "alive": alive, "bystander": bystOK, "stream_len": stream.Len(), "msgs_received": len(ids)}})
 }
 
 func dedupe(xs []string) []string {
